@@ -1089,8 +1089,8 @@ def run(ctx: vlib.Ctx):
         "case: list(to_dict(**kw).items()) == dict_of(model), type-sensitive, TypeError <-> None",
         "OptNested.v: nested dataclasses (mixin or plain, own Config or none), List[...] and unions of dataclasses under a "
         "mixin root (dynamic dispatch, flags = K8 both, pack_union first accepting member, default dialect handed down to "
-        "a plain class = K9 pass_dd); the model has no compile state: that the first compiling owner does not matter is "
-        "a consequence of K9 and is exercised by the harness (definition order, root order, lazy owners)",
+        "a plain class = K14 pass_dd); the model has no compile state: that the first compiling owner does not matter is "
+        "a consequence of K14 and is exercised by the harness (definition order, root order, lazy owners)",
         "pv: Python values seen by the body are None/bool/int/float/NaN/str/opaque; equality of opaque objects is "
         "decided by the harness ((type, repr) classes of date/list/tuple values)",
         "tools/kernels/k9_nested_builder.py: builder attributes abstracted as namespaces, statements before the nested "
@@ -1118,7 +1118,7 @@ def run(ctx: vlib.Ctx):
            "C08_spec_sorted", "C08_spec_values"]
     ctx.theorems("props/C08_kernel_K3.vo", ["K3_order", "K3_look"], kernels=["K3"])
     ctx.theorems("props/C08_kernel_K8.vo", ["K8_forward", "K8_use_kwargs"], kernels=["K8"])
-    ctx.theorems("props/C08_kernel_K9.vo", ["K9_passdown", "K9_pass_dd"], kernels=["K9"])
+    ctx.theorems("props/C08_kernel_K14.vo", ["K14_passdown", "K14_pass_dd"], kernels=["K14"])
     ctx.theorems("props/C08_project.vo", thm)
     ctx.theorems("props/C08_nested.vo", ["C08_nested_partial", "C08_union_flags_refuted", "C08_forwarded_exactly", "C08_no_leak",
                                             "C08_option_free_is_plain"])
@@ -1128,7 +1128,7 @@ def run(ctx: vlib.Ctx):
         with vlib.Lock("build"):
             rc, out, _ = vlib.run(["timeout", "600", "coqchk", "-silent", "-o", "-Q", "theories", "Verif", "-Q", "gen", "VerifGen",
                                    "-Q", "props", "VerifProps", "VerifProps.C08_project", "VerifProps.C08_nested",
-                                   "VerifProps.C08_kernel_K3", "VerifProps.C08_kernel_K8", "VerifProps.C08_kernel_K9"], cwd=vlib.COQ, timeout=640)
+                                   "VerifProps.C08_kernel_K3", "VerifProps.C08_kernel_K8", "VerifProps.C08_kernel_K14"], cwd=vlib.COQ, timeout=640)
         ok = rc == 0 and "Axioms: <none>" in out
         ctx.obligation("coqchk -o (C08_project, C08_nested, C08_kernel_K3, C08_kernel_K8): no axioms", ok, out[-600:])
         if not ok:
